@@ -1,0 +1,5 @@
+//! Hooks for check C33 (alignment arithmetic): re-exports only, no behaviour of their own.
+
+pub use crate::util::alloc::allocator::{
+    align_allocation, align_allocation_no_fill, get_maximum_aligned_size,
+};
